@@ -139,3 +139,40 @@ fn type31_one_block(ascii: bool) {
     }
     core::mem::forget(r);
 }
+
+/// VCP on a fixed 2-cut frame with every byte free (declared size, cut count, all fields).
+#[kani::proof]
+#[kani::unwind(5)]
+#[kani::stub(alloc::fmt::format, crate::stubs::fmt_format)]
+fn c04_vcp_fixed_frame() {
+    let b: [u8; 22 + 46 * 2] = kani::any();
+    let r = nexrad_decode::messages::volume_coverage_pattern::decode_volume_coverage_pattern(&mut &b[..]);
+    wit!(r.is_err());
+    wit!(r.is_ok());
+    core::mem::forget(r);
+}
+
+/// The message-stream loop on a 28 + 48-byte input whose message header (size fields included) is
+/// free and whose type is 31 with one block of free ASCII name: value or error, and the loop ends
+/// (every iteration must consume at least one header).
+#[kani::proof]
+#[kani::unwind(12)]
+#[kani::stub(alloc::fmt::format, crate::stubs::fmt_format)]
+#[kani::stub(<[u8; 4] as core::convert::TryFrom<&[u8]>>::try_from, crate::stubs::array_try_from)]
+fn c04_messages_short_stream() {
+    let mut b: [u8; 28 + 32 + 4 + 12] = kani::any();
+    b[15] = 31;
+    let h = 28;
+    b[h + 30] = 0;
+    b[h + 31] = 1;
+    b[h + 32] = 0;
+    b[h + 33] = 0;
+    b[h + 34] = 0;
+    b[h + 35] = 36;
+    kani::assume(b[h + 37] < 0x80 && b[h + 38] < 0x80 && b[h + 39] < 0x80);
+    let mut c = Cursor::new(&b[..]);
+    let r = decode_messages(&mut c);
+    wit!(r.is_err());
+    wit!(r.is_ok());
+    core::mem::forget(r);
+}
